@@ -61,7 +61,7 @@ func scanWants(prop string, o *Obligation) bool {
 			return true
 		}
 		return false
-	case "C04":
+	case "C04", "C02":
 		switch {
 		case strings.HasPrefix(o.Class, "pre:") && (strings.Contains(o.Class, "addFreeFloatingToken") || strings.Contains(o.Class, "setTokenPosition") || strings.Contains(o.Class, "NewLines")):
 			return true
